@@ -8,7 +8,7 @@
    consequences (C09_cbrt_laws), not assumptions. *)
 From Coq Require Import QArith Qabs List Arith Bool ZArith Lia.
 From BCT Require Import Base.Mat Base.SumQ Model.Threshold Model.Clustering
-  Proofs.ClusteringSpec Proofs.Clustering Proofs.ClusteringRange.
+  Proofs.ClusteringSpec Proofs.Clustering Proofs.ClusteringRange Proofs.ClusteringSign Proofs.ClusteringCount.
 Import ListNotations.
 Open Scope Q_scope.
 
@@ -30,6 +30,21 @@ Theorem C09_cbrt_mul : forall cbrt x y z,
   cube_root_at cbrt x -> cube_root_at cbrt y -> cube_root_at cbrt z -> cube_root_at cbrt (x * y * z) ->
   cbrt (x * y * z) == cbrt x * cbrt y * cbrt z.
 Proof. exact cra_mul3. Qed.
+
+(* ---- bct.utils.cuberoot as written: np.sign(x) * np.abs(x)**(1/3)  ([pcbrt] = the float power, applied to |x| only).
+   It is a cube root of x as soon as the power is a cube root of |x| (so every theorem below that assumes
+   cbrt_ok cbrt n W holds for cbrt := cuberoot pcbrt under pcbrt_ok pcbrt n W), and it is odd and sign-preserving
+   by construction, with no assumption on the power. ---- *)
+Theorem C09_cuberoot_is_cube_root : forall pcbrt,
+  (forall x, cube_root_at pcbrt (Qabs x) -> cube_root_at (cuberoot pcbrt) x) /\
+  (forall n W, pcbrt_ok pcbrt n W -> cbrt_ok (cuberoot pcbrt) n W).
+Proof. intros pcbrt. split; [exact (cuberoot_is_cube_root pcbrt)|exact (cuberoot_ok pcbrt)]. Qed.
+
+Theorem C09_cuberoot_odd : forall pcbrt x,
+  cuberoot pcbrt (- x) == - cuberoot pcbrt x /\
+  (0 <= pcbrt (Qabs x) ->
+   (0 < x -> 0 <= cuberoot pcbrt x) /\ (x < 0 -> cuberoot pcbrt x <= 0) /\ (x == 0 -> cuberoot pcbrt x == 0)).
+Proof. intros pcbrt x. split; [exact (cuberoot_odd pcbrt x)|exact (cuberoot_sign pcbrt x)]. Qed.
 
 (* ---- definitions ---- *)
 (* C_i = #linked pairs of neighbours / (k_i (k_i - 1) / 2), 0 if k_i < 2 *)
@@ -70,6 +85,16 @@ Theorem C09_cc_costantini_def : forall n W i, symmetric n W -> (i < n)%nat ->
   cc_wu_sign_costantini n W i == def_costantini n (clear_diag W) i.
 Proof. exact cc_costantini_def. Qed.
 
+(* the 'default' branch transcribed statement by statement (Model/Clustering.v cc_wu_sign_default_code) IS Onnela on
+   the two parts; the dispatch on coef_type: 'Zhang' / 'Costantini' select the same branches as the lower-case
+   spellings, every other string falls through and the routine returns None *)
+Theorem C09_wu_sign_code : forall cbrt n W,
+  (forall i, cc_wu_sign_default_code cbrt n W i = cc_wu_sign_default cbrt n W i) /\
+  clustering_coef_wu_sign cbrt n W CT_Zhang = clustering_coef_wu_sign cbrt n W CT_zhang /\
+  clustering_coef_wu_sign cbrt n W CT_Costantini = clustering_coef_wu_sign cbrt n W CT_costantini /\
+  clustering_coef_wu_sign cbrt n W CT_other = SR_none.
+Proof. intros cbrt n W. split; [exact (cc_wu_sign_default_code_eq cbrt n W)|exact (coef_type_dispatch cbrt n W)]. Qed.
+
 (* transitivity: sum_i linked pairs at i (= 3 x triangles) / sum_i k_i (k_i - 1) / 2 (= connected triples);
    None on both sides when there is no connected triple (the code returns nan) *)
 Theorem C09_trans_bu_def : forall n A, binary n A -> symmetric n A -> nodiag n A ->
@@ -98,6 +123,21 @@ Theorem C09_deg_lt2_zero : forall cbrt n W i, cbrt_ok cbrt n W -> (i < n)%nat ->
   cc_bu n W i == 0 /\ cc_bd n W i == 0 /\ cc_wu cbrt n W i == 0 /\ cc_wd cbrt n W i == 0.
 Proof. exact deg_lt2_zero. Qed.
 
+(* clustering_coef_wu_sign, all three coef types: exact zeros (the routine clears the diagonal itself) *)
+Theorem C09_wu_sign_no_triangle_zero : forall cbrt n W i, (i < n)%nat -> no_triangle n (clear_diag W) i ->
+  (cbrt_ok cbrt n (pospart (clear_diag W)) -> fst (cc_wu_sign_default cbrt n W i) == 0) /\
+  (cbrt_ok cbrt n (negpart (clear_diag W)) -> snd (cc_wu_sign_default cbrt n W i) == 0) /\
+  fst (cc_wu_sign_zhang n W i) == 0 /\ snd (cc_wu_sign_zhang n W i) == 0 /\
+  cc_wu_sign_costantini n W i == 0.
+Proof. exact wu_sign_no_triangle_zero. Qed.
+
+Theorem C09_wu_sign_deg_lt2_zero : forall cbrt n W i, (i < n)%nat -> few_neighbours n (clear_diag W) i ->
+  (cbrt_ok cbrt n (pospart (clear_diag W)) -> fst (cc_wu_sign_default cbrt n W i) == 0) /\
+  (cbrt_ok cbrt n (negpart (clear_diag W)) -> snd (cc_wu_sign_default cbrt n W i) == 0) /\
+  fst (cc_wu_sign_zhang n W i) == 0 /\ snd (cc_wu_sign_zhang n W i) == 0 /\
+  cc_wu_sign_costantini n W i == 0.
+Proof. exact wu_sign_deg_lt2_zero. Qed.
+
 (* ---- range ---- *)
 Theorem C09_range_01_bu : forall n A i, binary n A -> nodiag n A -> (i < n)%nat -> 0 <= cc_bu n A i <= 1.
 Proof. exact range_01_bu. Qed.
@@ -113,6 +153,13 @@ Theorem C09_range_01_wu_sign : forall cbrt n W i, signed_unit_weights n W -> sym
   (cbrt_ok cbrt n (pospart (clear_diag W)) -> 0 <= fst (cc_wu_sign_default cbrt n W i) <= 1) /\
   (cbrt_ok cbrt n (negpart (clear_diag W)) -> 0 <= snd (cc_wu_sign_default cbrt n W i) <= 1).
 Proof. exact range_01_wu_sign. Qed.
+(* coef_type='zhang': [0,1] on each sign; 'costantini': [-1,1]  (weights in [-1,1], any diagonal, no symmetry needed) *)
+Theorem C09_range_01_zhang : forall n W i, signed_unit_weights n W -> (i < n)%nat ->
+  0 <= fst (cc_wu_sign_zhang n W i) <= 1 /\ 0 <= snd (cc_wu_sign_zhang n W i) <= 1.
+Proof. exact range_zhang. Qed.
+Theorem C09_range_costantini : forall n W i, signed_unit_weights n W -> (i < n)%nat ->
+  - (1) <= cc_wu_sign_costantini n W i <= 1.
+Proof. exact range_costantini. Qed.
 (* whenever a transitivity is a number (there is at least one connected triple) it lies in [0,1] *)
 Theorem C09_range_01_trans : forall cbrt n W T,
   (binary n W -> symmetric n W -> nodiag n W -> trans_bu n W = Some T -> 0 <= T <= 1) /\
@@ -136,6 +183,36 @@ Proof.
   intros cbrt n W i Hd Hi. split; [intros Hb; exact (no_div0_bd n W i Hb Hd Hi)|].
   split; [intros Hc Hu; exact (no_div0_wd cbrt n W i Hc Hu Hd Hi)|intros Hc Hu Hs; exact (no_div0_wu cbrt n W i Hc Hu Hs Hd Hi)].
 Qed.
+
+(* the same for clustering_coef_wu_sign 'zhang' (each sign) and 'costantini': ANY weights, any diagonal.
+   [zh_cyc3] / [zh_cyc2] / [co_cyc2] are the loop accumulators cyc3 / cyc2 of the code; the quotient cyc3 / cyc2 is
+   taken only where cyc3 <> 0 (elsewhere cyc2 is masked to inf), and there cyc2 > 0: no inf, no nan *)
+Theorem C09_no_division_by_zero_sign : forall n W i, (i < n)%nat ->
+  (~ zh_cyc3 n (pospart (clear_diag W)) i == 0 -> 0 < zh_cyc2 n (pospart (clear_diag W)) i) /\
+  (~ zh_cyc3 n (negpart (clear_diag W)) i == 0 -> 0 < zh_cyc2 n (negpart (clear_diag W)) i) /\
+  (~ zh_cyc3 n (clear_diag W) i == 0 -> 0 < co_cyc2 n (clear_diag W) i).
+Proof. exact no_div0_sign. Qed.
+
+(* ---- Fagiolo's formula as a COUNT (0/1 matrix, empty diagonal): [dir_triangles n A i] lists every (j, k, orientation)
+   with j < k, both different from i, and one arc present on each of the sides i-j, j-k, k-i in the chosen directions
+   (8 orientations per pair); [open_pairs n A i] lists the ordered pairs of arcs incident to i whose other endpoints
+   differ.  The algebraic numerator / denominator of the routine are the lengths of these lists. ---- *)
+Theorem C09_tri_dir_counts : forall n A i, binary n A -> nodiag n A -> (i < n)%nat ->
+  tri_dir n A i == natq (length (dir_triangles n A i)) /\ poss_dir n A i == natq (length (open_pairs n A i)).
+Proof. intros n A i Hb Hd Hi. split; [exact (tri_dir_counts n A i Hb Hd Hi)|exact (poss_dir_counts n A i Hb Hd Hi)]. Qed.
+
+Theorem C09_cc_bd_counting : forall n A i, binary n A -> nodiag n A -> (i < n)%nat ->
+  cc_bd n A i == (if Nat.eqb (length (dir_triangles n A i)) 0 then 0
+                  else natq (length (dir_triangles n A i)) / natq (length (open_pairs n A i))).
+Proof. exact cc_bd_counting. Qed.
+
+(* weighted (clustering_coef_wd, transitivity_wd): the numerator is the sum over the same list of directed triangles
+   (of the support of W) of the product of the cube roots of the three arc weights, i.e. (C09_cbrt_mul) of the
+   geometric mean intensity (w1 w2 w3)^(1/3) of the published definition; the denominator is the count above on the
+   adjacency mmap nzQ W *)
+Theorem C09_tri_dir_weighted_enumeration : forall cbrt n W i, cbrt_ok cbrt n W -> nodiag n W -> (i < n)%nat ->
+  tri_dir n (mmap cbrt W) i == sumG (intens cbrt W i) (dir_triangles n W i).
+Proof. exact tri_dir_weighted_enumeration. Qed.
 
 (* ---- non-vacuity: concrete inputs meet the hypotheses and the values are non-trivial ---- *)
 Ltac bounded3 := let a := fresh "a" in let b := fresh "b" in let Ha := fresh in let Hb := fresh in
@@ -170,6 +247,37 @@ Proof.
   - vm_compute. reflexivity.
 Qed.
 
+(* negative cubes: the power is a cube root of the magnitudes, the code's cuberoot of the signed entries; a signed
+   triangle gets a negative coefficient from clustering_coef_wu and 1 on the negative part of 'zhang' *)
+Example C09_nonvacuous_signed :
+  let W := of_rows 0 [[0; - (27 # 512); 1 # 8]; [- (27 # 512); 0; 1]; [1 # 8; 1; 0]]%list in
+  pcbrt_ok cbrt_exact 3 W /\ signed_unit_weights 3 W /\
+  cuberoot cbrt_exact (- (27 # 512)) == - (3 # 8) /\
+  cc_wu (cuberoot cbrt_exact) 3 W 0 == - (3 # 16) /\
+  - (1) <= cc_wu_sign_costantini 3 W 0 <= 1 /\ ~ cc_wu_sign_costantini 3 W 0 == 0.
+Proof.
+  cbv zeta. split; [|split; [|split; [|split; [|split]]]].
+  - intros a b Ha Hb. do 3 (destruct a as [|a]; [do 3 (destruct b as [|b]; [vm_compute; reflexivity|]); exfalso; lia|]). exfalso; lia.
+  - intros a b Ha Hb. do 3 (destruct a as [|a]; [do 3 (destruct b as [|b]; [vm_compute; split; discriminate|]); exfalso; lia|]). exfalso; lia.
+  - vm_compute. reflexivity.
+  - vm_compute. reflexivity.
+  - vm_compute. split; discriminate.
+  - vm_compute. discriminate.
+Qed.
+
+(* a directed 0/1 graph: node 0 lies on 2 directed triangles out of 4 possible ones *)
+Example C09_nonvacuous_counting :
+  let A := of_rows 0 [[0; 1; 1]; [1; 0; 1]; [0; 0; 0]]%list in
+  binary 3 A /\ nodiag 3 A /\ length (dir_triangles 3 A 0) = 2%nat /\ length (open_pairs 3 A 0) = 4%nat /\ cc_bd 3 A 0 == 1 # 2.
+Proof.
+  cbv zeta. split; [|split; [|split; [|split]]].
+  - intros a b Ha Hb. do 3 (destruct a as [|a]; [do 3 (destruct b as [|b]; [vm_compute; tauto|]); exfalso; lia|]). exfalso; lia.
+  - intros a Ha. do 3 (destruct a as [|a]; [vm_compute; reflexivity|]). exfalso; lia.
+  - vm_compute. reflexivity.
+  - vm_compute. reflexivity.
+  - vm_compute. reflexivity.
+Qed.
+
 Print Assumptions C09_diag_cube_is_triples.
 Print Assumptions C09_cbrt_laws.
 Print Assumptions C09_cbrt_mul.
@@ -193,3 +301,14 @@ Print Assumptions C09_range_01_wd.
 Print Assumptions C09_range_01_wu_sign.
 Print Assumptions C09_range_01_trans.
 Print Assumptions C09_no_division_by_zero.
+Print Assumptions C09_cuberoot_is_cube_root.
+Print Assumptions C09_cuberoot_odd.
+Print Assumptions C09_wu_sign_code.
+Print Assumptions C09_wu_sign_no_triangle_zero.
+Print Assumptions C09_wu_sign_deg_lt2_zero.
+Print Assumptions C09_range_01_zhang.
+Print Assumptions C09_range_costantini.
+Print Assumptions C09_no_division_by_zero_sign.
+Print Assumptions C09_tri_dir_counts.
+Print Assumptions C09_cc_bd_counting.
+Print Assumptions C09_tri_dir_weighted_enumeration.
